@@ -517,7 +517,7 @@ theorem Rel.unfresh {rows : List CRow} {M : Maps} {pd : Bool} {kg : Nat} {s : St
   have hnn : ∀ j c, rows[j]? = some c → isNoop c = false → j ≠ N := fun j c hc hn => hne j (h.elno j c hc hn)
   have hvc : ∀ j c, Valid rows (unfreshM M N x) pd kg j c → Valid rows M pd kg j c := fun _ _ hv => hv
   refine ⟨h.gsize, h.root, ?_, ?_, h.elno, ?_, ?_, h.stack, h.ids, h.idok, h.prev, h.srcok, h.tgtok, h.args, ?_, ?_, ?_,
-    h.rnone, h.rnoop, h.rfresh⟩
+    h.rnone, h.rnoop, h.rfresh, h.names.congr (fun i c _ hc _ hnn' => unfreshM_nOf M N x i (hnn i c hc hnn'))⟩
   · intro j c hj hc hn hnn'
     rw [unfreshM_nOf M N x j (hnn j c hc hnn')]
     exact h.grp j c hj hc hn hnn'
@@ -634,7 +634,7 @@ theorem Rel.record {rows : List CRow} {M : Maps} {pd : Bool} {kg : Nat} {s : St}
     (htg : ∀ t, new.tgt = Target.row t → (t < kg ∨ (pd = true ∧ t = kg)) ∧ M.fr t = false) :
     Rel rows M pd kg s { st with out := new :: st.out } := by
   refine ⟨h.gsize, h.root, h.grp, h.grpN, h.elno, h.frel, ?_, h.stack, h.ids, h.idok, h.prev, ?_, ?_, h.args, ?_,
-    h.disj, h.rne, h.rnone, h.rnoop, h.rfresh⟩
+    h.disj, h.rne, h.rnone, h.rnoop, h.rfresh, h.names⟩
   · intro o ho t ht
     simp only [List.mem_cons] at ho
     rcases ho with rfl | ho
@@ -948,7 +948,7 @@ theorem routeM_fr (M : Maps) (N x t : Nat) : (routeM M N x).fr t = if t = N then
 theorem Rel.route {rows : List CRow} {M : Maps} {pd : Bool} {kg : Nat} {s : St} {st : P1}
     (h : Rel rows M pd kg s st) (N : Nat) (cN : CRow) (hcN : rows[N]? = some cN) (hnN : isNoop cN = true)
     (hfr : M.fr N = true) (hN : N < kg) (hout : outOf st N = [])
-    (n : NodeM) (hnrnd : ∀ r, n.router ≠ some (RouterM.rnd r)) (hnsim : ∀ M ns, NodeSim M ns n cN [])
+    (n : NodeM) (hnrnd : ∀ r, n.router ≠ some (RouterM.rnd r)) (hnsim : ∀ M ns post, NodeSim M ns n cN post [])
     (ps : List (Nat × Compile.Cond)) (nx : Nat) (hnx : s.next ≤ nx) :
     Rel rows (routeM M N s.nodes.size) pd kg
       { s with nodes := s.nodes.push n,
@@ -983,7 +983,9 @@ theorem Rel.route {rows : List CRow} {M : Maps} {pd : Bool} {kg : Nat} {s : St} 
     · subst hjj; simp [idxs, hMN, hrN]
     · simp [idxs, hMo j0 hjj, hMr, hjj]
   refine ⟨by simpa using h.gsize, ?_, ?_, ?_, ?_, ?_, ?_, h.stack, h.ids, h.idok, h.prev, h.srcok, h.tgtok, h.args, ?_, ?_,
-    ?_, by rw [hMr]; exact h.rnone, by rw [hMr]; exact h.rnoop, ?_⟩
+    ?_, by rw [hMr]; exact h.rnone, by rw [hMr]; exact h.rnoop, ?_,
+    h.names.congr (fun i c _ hc _ hnn' => hMo i (by
+      intro e; subst e; rw [hcN] at hc; injection hc with hc; subst hc; rw [hnN] at hnn'; cases hnn'))⟩
   · simp only [Array.getElem?_setIfInBounds]
     rw [if_neg (by omega)]; exact h.root
   · intro j c hj hc hn hnn
@@ -1022,7 +1024,7 @@ theorem Rel.route {rows : List CRow} {M : Maps} {pd : Bool} {kg : Nat} {s : St} 
       subst this
       refine ⟨n, by rw [hMN]; simp, ?_⟩
       rw [hout, hrN]
-      exact .one (hnsim _ _)
+      exact .one (hnsim _ _ _)
     · obtain ⟨n', hn', hp'⟩ := h.node j c' (hvalid j c' hv hjN)
       refine ⟨n', by rw [hMo j hjN]; exact getElem?_push_of_some n hn', ?_⟩
       rw [hMr]
@@ -1063,8 +1065,8 @@ theorem Rel.route {rows : List CRow} {M : Maps} {pd : Bool} {kg : Nat} {s : St} 
       exact ⟨k0, by show k0 < nx; omega, e⟩
 
 /-- the node of a `no_op` row with a router node is described by `NopSim` -/
-theorem NodeSim.nop_of_kind {M : Maps} {ns : Array NodeM} {n : NodeM} {c : CRow} {es : List OutEdge}
-    (hk : kindOf c.row.type = .noOp) (hs : NodeSim M ns n c es) : ∃ r, NopSim M ns n c es r := by
+theorem NodeSim.nop_of_kind {M : Maps} {ns : Array NodeM} {n : NodeM} {c : CRow} {post : List Str} {es : List OutEdge}
+    (hk : kindOf c.row.type = .noOp) (hs : NodeSim M ns n c post es) : ∃ r, NopSim M ns n c es r := by
   cases hs with
   | plain hk' _ => rw [hk] at hk'; cases hk'
   | sw r hk' _ => rcases hk' with h | h | h <;> rw [hk] at h <;> cases h
@@ -1132,8 +1134,8 @@ theorem noop_route_sim (rows : List CRow) (outF : List OutEdge) (g : Good rows o
       (Cat.mk (tid (s.next + 1)) "Other".toList (tid (s.next + 1 + 1)) .none) none none none := ⟨_, rfl⟩
   obtain ⟨rn, hrn⟩ : ∃ rn : NodeM, rn = NodeM.mk (tid s.next) .switch [] (some (.sw sw0))
       (tid (s.next + 1 + 2)) .none := ⟨_, rfl⟩
-  have hnsim : ∀ M ns, NodeSim M ns rn cN [] := by
-    intro M0 ns
+  have hnsim : ∀ M ns post, NodeSim M ns rn cN post [] := by
+    intro M0 ns post
     refine .nop sw0 hkN ⟨by rw [hrn], by rw [hrn], by rw [hrn], ⟨by rw [hsw0]; exact hvne, fun hh => absurd rfl hh⟩,
       by rw [hsw0], by rw [hsw0], by rw [hsw0], by rw [hsw0]; rfl, by rw [hsw0]; rfl, by rw [hsw0]; exact List.Forall₂.nil,
       by rw [hsw0]; rfl, ⟨by rw [hsw0]; rfl, by rw [hsw0]⟩⟩
